@@ -21,8 +21,23 @@ from nested_pandas.nestedframe.expr import (
 from nested_pandas.series.dtype import NestedDtype
 from nested_pandas.series.packer import pack, pack_lists, pack_sorted_df_into_struct
 
-# a "=" that is not part of ==, !=, <=, >=
-_ASSIGNMENT_SIGN = re.compile(r"(?<![=!<>])=(?!=)")
+# a "=" that is not part of ==, !=, <=, >=, :=
+_ASSIGNMENT_SIGN = re.compile(r"(?<![=!<>:])=(?!=)")
+# back-ticked names and string literals; innermost bracketed groups
+_QUOTED = re.compile(r"`[^`]*`" r"|'(?:[^'\\]|\\.)*'" r'|"(?:[^"\\]|\\.)*"')
+_BRACKETED = re.compile(r"\([^()\[\]]*\)|\[[^()\[\]]*\]")
+
+
+def _has_assignment(expr: str) -> bool:
+    """Whether a line of the expression assigns: a "=" outside names, strings and brackets
+    (a "=" inside brackets is a keyword argument)"""
+    text = _QUOTED.sub("", expr)
+    while True:
+        stripped = _BRACKETED.sub("", text)
+        if stripped == text:
+            return _ASSIGNMENT_SIGN.search(text) is not None
+        text = stripped
+
 
 pd.set_option("display.max_rows", 30)
 pd.set_option("display.min_rows", 5)
@@ -552,7 +567,7 @@ class NestedFrame(pd.DataFrame):
         # see the fields assigned by the earlier ones (pandas updates its own resolvers only with
         # the assigned values, not with the frame). So make the copy here and let pandas assign
         # into it in place. An expression without an assignment sign needs no copy.
-        work_on_copy = not inplace and "target" not in kwargs and _ASSIGNMENT_SIGN.search(expr) is not None
+        work_on_copy = not inplace and "target" not in kwargs and _has_assignment(expr)
         target = self.copy() if work_on_copy else self
         if work_on_copy:
             kwargs["target"] = target
